@@ -346,10 +346,43 @@ def code_reader(ctx):
         hs = [h for h in tr.handlers if handler_catches(h, ["OSError"])]
         ctx.check(bool(hs), tr, "unreadable stored source (OSError/IOError) is handled", "no handler for OSError around the read of the stored source")
         for h in hs:
-            wr = [x for s in h.body for x in calls_in(s) if call_name(x) == "self._write_func_code"]
+            wr = [x for s in h.body for x in calls_in(s) if call_name(x) in ("self._write_func_code", "self.clear")]
             rets = [s for s in h.body if isinstance(s, ast.Return)]
-            ctx.check(bool(wr) and rets and all(is_const(r.value, False) for r in rets), h, "unreadable source => rewrite it and report a miss (return False)",
+            ctx.check(bool(wr) and rets and all(is_const(r.value, False) for r in rets), h, "unreadable source => (wipe and) rewrite it and report a miss (return False)",
                       "unreadable stored source is not turned into rewrite + miss")
+
+
+def label_after_wipe(ctx):
+    """The stored source (func_code.py) is the LABEL of every result in the function's directory: whoever writes it
+    declares 'these results were computed by this source'. It may therefore be written only (a) right after the
+    directory was wiped, or (b) ... never otherwise: a writer that has not compared the old label (it was unreadable
+    or missing - e.g. a kill while the directory was being removed, rmtree deletes in directory order and the label
+    can go first) must wipe before it labels. Every call that stores the label is dominated by a wipe of this
+    function's directory (clear_path / clear) in its own function, or - for the one storing helper - every caller is."""
+    cls_funcs = [(q, f) for (rel, q, f) in ctx.repo.all_functions(lambda r: r == MEM) if q.startswith("MemorizedFunc.") or q.startswith("AsyncMemorizedFunc.")]
+    WRITE = ("self._write_func_code", "self.store_backend.store_cached_func_code")
+    WIPE = ("self.store_backend.clear_path", "self.clear")
+    n = 0
+    for q, f in cls_funcs:
+        g = None
+        for c in calls_in(f):
+            if call_name(c) not in WRITE:
+                continue
+            if q.endswith("._write_func_code") and call_name(c) == "self.store_backend.store_cached_func_code":
+                ctx.ok(c, "the storing helper itself: judged at its callers")
+                continue
+            if call_name(c) == "self.store_backend.store_cached_func_code" and len(c.args) < 2 and kwarg(c, "func_code") is None:
+                ctx.ok(c, "no source is handed over: the call only creates the function's directory")
+                continue
+            n += 1
+            g = g or cfg_of(f)
+            wipes = [w for w in calls_in(f) if call_name(w) in WIPE and not (call_name(w) == "self.clear" and q.endswith(".clear"))]
+            ctx.check(bool(wipes) and g.every_path_to(g.nodes_of(c), g.nodes_of_all(wipes)), c,
+                      "%s labels the function's directory with the current source only after wiping it" % q.split(".")[-1],
+                      "%s stores the current source as the label of the function's directory without wiping the directory first: results left there by "
+                      "another source (e.g. by a kill while the directory was being removed - the label can be deleted before the entries) are served as valid from then on"
+                      % q.split(".")[-1])
+    ctx.floor(n, 1, "writers of the stored source")
 
 
 def invalidate_order(ctx):
